@@ -4,41 +4,41 @@ import DroopProofs.PermB
 returned state and the ballot views in its log, and changes nothing else -/
 namespace Droop
 variable {α : Type} [CommRing α] [LinearOrder α] [IsStrictOrderedRing α] (A : Arith α)
-variable {π : ∀ {β : Type}, List β → List β}
+variable {fb : List (Ballot α) → List (Ballot α)} {fw : List (Nat × α) → List (Nat × α)}
 
 section
-variable (hA : LawfulArith A) (hπ : NatPerm π)
-include hA hπ
+variable (hA : LawfulArith A) (hx : XF A fb fw)
+include hA hx
 
-theorem permB_wigmElect (o : WigmOpts) (s : St α) : permB π (wigmElect A o s) = wigmElect A o (permB π s) := by
+theorem xB_wigmElect (o : WigmOpts) (s : St α) : xB fb fw (wigmElect A o s) = wigmElect A o (xB fb fw s) := by
   unfold wigmElect electWinners
-  have hq : (if o.prf then hasQuotaGE A else hasQuotaX A) (permB π s) = (if o.prf then hasQuotaGE A else hasQuotaX A) s := by
+  have hq : (if o.prf then hasQuotaGE A else hasQuotaX A) (xB fb fw s) = (if o.prf then hasQuotaGE A else hasQuotaX A) s := by
     funext c; split <;> rfl
   rw [hq]
-  exact permB_foldElect A hπ _ (fun _ => "Elect, transfer pending") (fun _ => true) s
+  exact xB_foldElect A hx _ (fun _ => "Elect, transfer pending") (fun _ => true) s
 
-theorem permB_wigmSurplusStep (s : St α) : permB π (wigmSurplusStep A s) = wigmSurplusStep A (permB π s) := by
+theorem xB_wigmSurplusStep (s : St α) : xB fb fw (wigmSurplusStep A s) = wigmSurplusStep A (xB fb fw s) := by
   unfold wigmSurplusStep
-  dsimp only [pendingL_permB]
+  dsimp only [pendingL_xB]
   cases hm : maxVoteOf A s.pendingL with
   | none => rfl
   | some hv =>
     simp only
-    rw [permB_breakTie A hπ]
+    rw [xB_breakTie A hx]
     cases hb : breakTie A s (s.pendingL.filter (fun c => A.eq c.vote hv)) "Break tie (surplus)" with
     | mk s1 oc =>
       cases oc with
       | none => rfl
-      | some hc => simp only; rw [permB_transferSurplus A hA hπ, permB_unpendLog A hπ]
+      | some hc => simp only; rw [xB_transferSurplus A hA hx, xB_unpendLog A hx]
 
-theorem permB_foldTransferDefeated1 (l : List (Cand α)) (verb : String) (s : St α) :
-    permB π (l.foldl (fun acc c => transferDefeated A acc [c.cid] verb) s)
-      = l.foldl (fun acc c => transferDefeated A acc [c.cid] verb) (permB π s) := by
+theorem xB_foldTransferDefeated1 (l : List (Cand α)) (verb : String) (s : St α) :
+    xB fb fw (l.foldl (fun acc c => transferDefeated A acc [c.cid] verb) s)
+      = l.foldl (fun acc c => transferDefeated A acc [c.cid] verb) (xB fb fw s) := by
   induction l generalizing s with
   | nil => rfl
-  | cons c cs ih => simp only [List.foldl_cons]; rw [ih, permB_transferDefeated A hA hπ]
+  | cons c cs ih => simp only [List.foldl_cons]; rw [ih, xB_transferDefeated A hA hx]
 
-omit hA hπ in
+omit hA hx in
 /-- `wigmDefeatStep` with the selectors read from `s0` and the operations applied to `s` -/
 theorem wigmDefeatStep_on (o : WigmOpts) (s0 s : St α) (hh : s.hopeful = s0.hopeful) (hl : s.seatsLeft = s0.seatsLeft) :
     wigmDefeatStep A o s =
@@ -57,77 +57,77 @@ theorem wigmDefeatStep_on (o : WigmOpts) (s0 s : St α) (hh : s.hopeful = s0.hop
   rw [hh, hl]
   cases minVoteOf A s0.hopeful <;> rfl
 
-theorem permB_wigmDefeatStep (o : WigmOpts) (s : St α) : permB π (wigmDefeatStep A o s) = wigmDefeatStep A o (permB π s) := by
-  rw [wigmDefeatStep_on A o s s rfl rfl, wigmDefeatStep_on A o s (permB π s) rfl rfl]
+theorem xB_wigmDefeatStep (o : WigmOpts) (s : St α) : xB fb fw (wigmDefeatStep A o s) = wigmDefeatStep A o (xB fb fw s) := by
+  rw [wigmDefeatStep_on A o s s rfl rfl, wigmDefeatStep_on A o s (xB fb fw s) rfl rfl]
   cases hm : minVoteOf A s.hopeful with
   | none => rfl
   | some lv =>
     simp only
     by_cases hz : (A.eq lv A.zero && o.batchZero && decide (((s.hopeful.filter (fun c => A.eq c.vote lv)).length : Int) ≤ (s.hopeful.length : Int) - s.seatsLeft)) = true
-    · rw [if_pos hz, if_pos hz, permB_foldTransferDefeated1 A hA hπ]
+    · rw [if_pos hz, if_pos hz, xB_foldTransferDefeated1 A hA hx]
       congr 1
-      exact permB_foldDefeat A hπ _ (fun _ => "Defeat batch(zero)") s
-    · rw [if_neg hz, if_neg hz, permB_breakTie A hπ]
+      exact xB_foldDefeat A hx _ (fun _ => "Defeat batch(zero)") s
+    · rw [if_neg hz, if_neg hz, xB_breakTie A hx]
       cases hb : breakTie A s (s.hopeful.filter (fun c => A.eq c.vote lv)) "Break tie (defeat)" with
       | mk s1 oc =>
         cases oc with
         | none => rfl
-        | some lc => simp only; rw [permB_transferDefeated A hA hπ, permB_defeat A hπ]
+        | some lc => simp only; rw [xB_transferDefeated A hA hx, xB_defeat A hx]
 
-omit hA hπ in
-theorem wigmSure_permB (o : WigmOpts) (s : St α) : wigmSure A o (permB π s) = wigmSure A o s := rfl
+omit hA hx in
+theorem wigmSure_xB (o : WigmOpts) (s : St α) : wigmSure A o (xB fb fw s) = wigmSure A o s := rfl
 
-theorem permB_wigmBatchStep (s : St α) (sure : List (Cand α)) :
-    (wigmBatchStep A (permB π s) sure) = (permB π (wigmBatchStep A s sure).1, (wigmBatchStep A s sure).2) := by
+theorem xB_wigmBatchStep (s : St α) (sure : List (Cand α)) :
+    (wigmBatchStep A (xB fb fw s) sure) = (xB fb fw (wigmBatchStep A s sure).1, (wigmBatchStep A s sure).2) := by
   unfold wigmBatchStep
-  have h1 : wigmDefeatSure A (permB π s) sure = permB π (wigmDefeatSure A s sure) := by
-    unfold wigmDefeatSure; exact (permB_foldDefeat A hπ _ (fun _ => "Defeat sure loser") s).symm
+  have h1 : wigmDefeatSure A (xB fb fw s) sure = xB fb fw (wigmDefeatSure A s sure) := by
+    unfold wigmDefeatSure; exact (xB_foldDefeat A hx _ (fun _ => "Defeat sure loser") s).symm
   rw [h1]
   by_cases hb : decide (((wigmDefeatSure A s sure).hopeful.length : Int) ≤ (wigmDefeatSure A s sure).seatsLeft) = true
-  · rw [if_pos (show decide (((permB π (wigmDefeatSure A s sure)).hopeful.length : Int)
-        ≤ (permB π (wigmDefeatSure A s sure)).seatsLeft) = true from hb), if_pos hb]
-  · rw [if_neg (show ¬ decide (((permB π (wigmDefeatSure A s sure)).hopeful.length : Int)
-        ≤ (permB π (wigmDefeatSure A s sure)).seatsLeft) = true from hb), if_neg hb]
-    simp only; rw [permB_transferDefeated A hA hπ]
+  · rw [if_pos (show decide (((xB fb fw (wigmDefeatSure A s sure)).hopeful.length : Int)
+        ≤ (xB fb fw (wigmDefeatSure A s sure)).seatsLeft) = true from hb), if_pos hb]
+  · rw [if_neg (show ¬ decide (((xB fb fw (wigmDefeatSure A s sure)).hopeful.length : Int)
+        ≤ (xB fb fw (wigmDefeatSure A s sure)).seatsLeft) = true from hb), if_neg hb]
+    simp only; rw [xB_transferDefeated A hA hx]
 
-theorem permB_wigmAfterElect (o : WigmOpts) (s : St α) :
-    wigmAfterElect A o (permB π s) = (permB π (wigmAfterElect A o s).1, (wigmAfterElect A o s).2) := by
+theorem xB_wigmAfterElect (o : WigmOpts) (s : St α) :
+    wigmAfterElect A o (xB fb fw s) = (xB fb fw (wigmAfterElect A o s).1, (wigmAfterElect A o s).2) := by
   unfold wigmAfterElect
   by_cases h1 : (!(wigmSure A o s).isEmpty) = true
-  · rw [if_pos (show (!(wigmSure A o (permB π s)).isEmpty) = true from h1), if_pos h1]
-    exact permB_wigmBatchStep A hA hπ s _
-  · rw [if_neg (show ¬ (!(wigmSure A o (permB π s)).isEmpty) = true from h1), if_neg h1]
+  · rw [if_pos (show (!(wigmSure A o (xB fb fw s)).isEmpty) = true from h1), if_pos h1]
+    exact xB_wigmBatchStep A hA hx s _
+  · rw [if_neg (show ¬ (!(wigmSure A o (xB fb fw s)).isEmpty) = true from h1), if_neg h1]
     by_cases h2 : (!s.pendingL.isEmpty) = true
-    · rw [if_pos (show (!(permB π s).pendingL.isEmpty) = true from h2), if_pos h2]
-      simp only; rw [permB_wigmSurplusStep A hA hπ]
-    · rw [if_neg (show ¬ (!(permB π s).pendingL.isEmpty) = true from h2), if_neg h2]
+    · rw [if_pos (show (!(xB fb fw s).pendingL.isEmpty) = true from h2), if_pos h2]
+      simp only; rw [xB_wigmSurplusStep A hA hx]
+    · rw [if_neg (show ¬ (!(xB fb fw s).pendingL.isEmpty) = true from h2), if_neg h2]
       by_cases h3 : (!s.hopeful.isEmpty) = true
-      · rw [if_pos (show (!(permB π s).hopeful.isEmpty) = true from h3), if_pos h3]
-        simp only; rw [permB_wigmDefeatStep A hA hπ]
-      · rw [if_neg (show ¬ (!(permB π s).hopeful.isEmpty) = true from h3), if_neg h3]
+      · rw [if_pos (show (!(xB fb fw s).hopeful.isEmpty) = true from h3), if_pos h3]
+        simp only; rw [xB_wigmDefeatStep A hA hx]
+      · rw [if_neg (show ¬ (!(xB fb fw s).hopeful.isEmpty) = true from h3), if_neg h3]
 
-theorem permB_wigmBody (o : WigmOpts) (s : St α) :
-    wigmBody A o (permB π s) = (permB π (wigmBody A o s).1, (wigmBody A o s).2) := by
+theorem xB_wigmBody (o : WigmOpts) (s : St α) :
+    wigmBody A o (xB fb fw s) = (xB fb fw (wigmBody A o s).1, (wigmBody A o s).2) := by
   unfold wigmBody
-  rw [← permB_newRound A hπ, ← permB_wigmElect A hA hπ]
-  exact permB_wigmAfterElect A hA hπ o _
+  rw [← xB_newRound A hx, ← xB_wigmElect A hA hx]
+  exact xB_wigmAfterElect A hA hx o _
 
-omit hA hπ in
-theorem stdGuard_permB (s : St α) : stdGuard (permB π s) = stdGuard s := rfl
+omit hA hx in
+theorem stdGuard_xB (s : St α) : stdGuard (xB fb fw s) = stdGuard s := rfl
 
-omit hA hπ in
+omit hA hx in
 /-- the fuelled loop commutes with the reordering when the body does -/
-theorem loopN_permB (guard : St α → Bool) (body : St α → St α × Flow)
-    (hg : ∀ s, guard (permB π s) = guard s)
-    (hb : ∀ s, body (permB π s) = (permB π (body s).1, (body s).2)) :
-    ∀ (fuel : Nat) (s : St α), loopN guard body fuel (permB π s) = (loopN guard body fuel s).map (permB π) := by
+theorem loopN_xB (guard : St α → Bool) (body : St α → St α × Flow)
+    (hg : ∀ s, guard (xB fb fw s) = guard s)
+    (hb : ∀ s, body (xB fb fw s) = (xB fb fw (body s).1, (body s).2)) :
+    ∀ (fuel : Nat) (s : St α), loopN guard body fuel (xB fb fw s) = (loopN guard body fuel s).map (xB fb fw) := by
   intro fuel
   induction fuel with
   | zero => intro s; rfl
   | succ n ih =>
     intro s
     unfold loopN
-    simp only [crash_permB, hg]
+    simp only [crash_xB, hg]
     by_cases hc : s.crash.isSome = true
     · simp [hc]
     · simp only [hc, Bool.false_eq_true, if_false]
@@ -141,49 +141,56 @@ theorem loopN_permB (guard : St α → Bool) (body : St α → St α × Flow)
           | brk => rfl
       · simp [hgs]
 
-theorem permB_epilogue (s : St α) : permB π (epilogueElectOrDefeat A s) = epilogueElectOrDefeat A (permB π s) := by
+theorem xB_epilogue (s : St α) : xB fb fw (epilogueElectOrDefeat A s) = epilogueElectOrDefeat A (xB fb fw s) := by
   unfold epilogueElectOrDefeat
   dsimp only
-  simp only [pendingL_permB]
-  rw [← permB_foldUnpend]
+  simp only [pendingL_xB]
+  rw [← xB_foldUnpend]
   generalize s.pendingL.foldl (fun acc c => acc.unpendSilent c.cid) s = s5
-  simp only [hopeful_permB]
+  simp only [hopeful_xB]
   have key : ∀ (l : List (Cand α)) (t : St α),
-      permB π (l.foldl (fun acc c => if acc.elected.length < acc.seats then acc.elect A c.cid "Elect remaining" false
+      xB fb fw (l.foldl (fun acc c => if acc.elected.length < acc.seats then acc.elect A c.cid "Elect remaining" false
           else acc.defeat A c.cid "Defeat remaining") t)
         = l.foldl (fun acc c => if acc.elected.length < acc.seats then acc.elect A c.cid "Elect remaining" false
-          else acc.defeat A c.cid "Defeat remaining") (permB π t) := by
+          else acc.defeat A c.cid "Defeat remaining") (xB fb fw t) := by
     intro l
     induction l with
     | nil => intro t; rfl
     | cons w ws ih =>
       intro t
-      simp only [List.foldl_cons, elected_permB, seats_permB]
+      simp only [List.foldl_cons, elected_xB, seats_xB]
       by_cases hlt : t.elected.length < t.seats
-      · simp only [hlt, if_true]; rw [ih, permB_elect A hπ]
-      · simp only [hlt, if_false]; rw [ih, permB_defeat A hπ]
+      · simp only [hlt, if_true]; rw [ih, xB_elect A hx]
+      · simp only [hlt, if_false]; rw [ih, xB_defeat A hx]
   exact key _ _
 
-theorem permB_wigmInit (o : WigmOpts) (s0 : St α) : permB π (wigmInit A o s0) = wigmInit A o (permB π s0) := by
+theorem xB_wigmInit (o : WigmOpts) (s0 : St α) : xB fb fw (wigmInit A o s0) = wigmInit A o (xB fb fw s0) := by
   unfold wigmInit
-  rw [permB_logAct A hπ]
-  have : permB π ((firstCount A (s0.setQuota (wigmQuota A o s0))).setExhausted A.zero)
-      = (permB π (firstCount A (s0.setQuota (wigmQuota A o s0)))).setExhausted A.zero := rfl
-  rw [this, permB_firstCount A hA hπ]
+  rw [xB_logAct A hx]
+  have : xB fb fw ((firstCount A (s0.setQuota (wigmQuota A o s0))).setExhausted A.zero)
+      = (xB fb fw (firstCount A (s0.setQuota (wigmQuota A o s0)))).setExhausted A.zero := rfl
+  rw [this, xB_firstCount A hA hx]
   rfl
 
 /-- **C10, wigm / wigm-prf / wigm-prf-batch (every configuration)**: the count of the profile with its ballot lines rearranged
     is the count of the profile, with the ballot list and the logged ballot views rearranged the same way — every action, tally,
     quota and total is the same -/
-theorem wigm_permB (o : WigmOpts) (s0 : St α) :
-    wigmCount A o (permB π s0) = (wigmCount A o s0).map (permB π) := by
+theorem wigm_xB (o : WigmOpts) (s0 : St α) :
+    wigmCount A o (xB fb fw s0) = (wigmCount A o s0).map (xB fb fw) := by
   unfold wigmCount
-  have hlen : (permB π s0).cands.length = s0.cands.length := rfl
-  rw [hlen, ← permB_wigmInit A hA hπ, loopN_permB stdGuard (wigmBody A o) stdGuard_permB (permB_wigmBody A hA hπ o)]
+  have hlen : (xB fb fw s0).cands.length = s0.cands.length := rfl
+  rw [hlen, ← xB_wigmInit A hA hx, loopN_xB stdGuard (wigmBody A o) stdGuard_xB (xB_wigmBody A hA hx o)]
   cases loopN stdGuard (wigmBody A o) (2 * s0.cands.length + 3) (wigmInit A o s0) with
   | none => rfl
-  | some s4 => simp only [Option.map_some]; rw [permB_epilogue A hA hπ]
+  | some s4 => simp only [Option.map_some]; rw [xB_epilogue A hA hx]
 
 end
+
+
+/-- reordering the ballot lines by a natural permutation (the instance used by `Props/C10Run.lean`) -/
+theorem wigm_permB {α : Type} [CommRing α] [LinearOrder α] [IsStrictOrderedRing α] (A : Arith α) (hA : LawfulArith A)
+    {π : ∀ {β : Type}, List β → List β} (hπ : NatPerm π) (o : WigmOpts) (s0 : St α) :
+    wigmCount A o (permB π s0) = (wigmCount A o s0).map (permB π) :=
+  wigm_xB A hA (XF_of_natPerm A hA hπ) o s0
 
 end Droop
